@@ -241,7 +241,7 @@ impl VHDLServer {
     /// Get or compute the cached semantic tokens for a file.
     fn cached_semantic_tokens(&mut self, uri: &Url) -> Option<&[CachedToken]> {
         if !self.semantic_token_cache.contains_key(uri) {
-            let source = self.project.get_source(&uri_to_file_name(uri))?;
+            let source = self.project.get_source(&uri_to_file_name(uri)?)?;
             let raw_tokens = self.project.find_all_entity_references(&source);
             let tokens = map_and_sort(raw_tokens);
             self.semantic_token_cache.insert(uri.clone(), tokens);
